@@ -14,7 +14,7 @@ TRACK = 'tracklib.core.track.Track'
 EXPLANATION = (
     'Static analysis by interpretation of the source (nothing imported or executed by CPython): shortest_path is walked by tlint.orders for every ordered pair of every case graph, in two query orders on the same network object: None exactly when no walk exists; otherwise the node list and the geometry must be those of an optimal walk (weights summing to the Floyd-Warshall distance, each edge polyline oriented along the travel, junction vertices once, doubled end vertices and vertically stacked nodes included), the route must share no observation or coordinate object with the network and the network geometries must be unchanged.')
 ASSUMPTIONS = ["node coordinates equal the end vertices of the incident edge geometries (data precondition)"]
-TECHNIQUE = "abstract interpretation of Network.shortest_path (forward and backward passes, Track concatenation / reversal, the priority queue) by the checker's AST interpreter on ~190 small multigraphs, against the set of optimal walks enumerated by the checker (bounded case domain)"
+TECHNIQUE = "abstract interpretation of Network.shortest_path (forward and backward passes, Track concatenation / reversal, the priority queue) by the checker's AST interpreter on ~190 small multigraphs (falsy and sentinel-like node ids included), against the set of optimal walks enumerated by the checker (bounded case domain)"
 
 
 def _backward(ctx):
